@@ -84,7 +84,7 @@ DNext == (\E T \in Vals : SetTarget(T)) \/ Stop \/ (\E r \in Ramps : SetRamp(r))
          \/ (\E v \in Vals : SetX(v)) \/ ReadX \/ Tick
 DSpec == DInit /\ [][DNext]_dvars
 
-(* DEVIATION of the code before 7893dc6 (not part of DNext)  : the target is stored, the status is left *)
+(* DEVIATION of the code before 7893dc6 (not part of DNext): the target is stored, the status is left *)
 (* alone until the simulation thread wakes up                                                        *)
 Dev_LateBusy(T) == /\ T # hv /\ status = "idle"
                    /\ target' = T /\ status' = "idle" /\ last' = [op |-> "target"]
